@@ -439,6 +439,28 @@ def chart0(prs):
     return prs.slides[0].shapes[0].chart
 
 
+def _toggle(obj, attr):
+    setattr(obj, attr, False)
+    setattr(obj, attr, True)
+
+
+def _retext(prs):
+    sh0(prs).text_frame.text = "hello"
+
+
+# kind name -> how the container of that kind of object is removed and created again through the public API
+REGATES = {
+    "legend": lambda prs: _toggle(chart0(prs), "has_legend"),
+    "data_labels": lambda prs: _toggle(chart0(prs).plots[0], "has_data_labels"),
+    "axis_title": lambda prs: _toggle(chart0(prs).value_axis, "has_title"),
+    "chart_title": lambda prs: _toggle(chart0(prs), "has_title"),
+    "paragraph": _retext, "font": _retext, "run": _retext, "paragraph_text": _retext, "run_hyperlink": _retext,
+    "gradient": lambda prs: sh0(prs).fill.gradient(), "gradfill": lambda prs: sh0(prs).fill.gradient(),
+    "gradstop": lambda prs: sh0(prs).fill.gradient(),
+    "pattern": lambda prs: sh0(prs).fill.patterned(), "pattfill": lambda prs: sh0(prs).fill.patterned(),
+}
+
+
 def base_reading(obj, attr):
     try:
         b = obj._base_placeholder
@@ -1389,6 +1411,26 @@ def run(ck, tier, rng):
                 except Exception as e:  # noqa
                     ck.notes.append("sibling trial crashed: %s %s %r: %r" % (k.name, p.attr, v, e))
 
+    # ---- oracle after the object's container was removed and created again through the public API (the legend
+    # switched off and on, the data labels, an axis title, the chart title, a text body rewritten, a gradient or
+    # pattern fill re-applied): the object reached again through the API must be the live one -- an assignment
+    # through it reads back and survives save + re-open
+    stats["regated"] = 0
+    for k in kinds:
+        gate = REGATES.get(k.name)
+        if gate is None:
+            continue
+        for p in k.props:
+            vals = [v for v in p.valid if v is not None and not (p.truthy and not v)][:3]
+            for v in vals:
+                try:
+                    prs_g = k.build()
+                    oracle_trial(ck, k, p, v, "valid", reopen=True, stats=stats, where="after its container was re-created", prs=prs_g,
+                                 prepare=(lambda obj, prs_g=prs_g, gate=gate: gate(prs_g)), prep_spec={"regate": True})
+                    stats["regated"] += 1
+                except Exception as e:  # noqa
+                    ck.notes.append("regated trial crashed: %s %s %r: %r" % (k.name, p.attr, v, e))
+
     # ---- correspondence on fresh objects: random histories
     cases, expect = [], []
     n_hist = 12 if quick else 400
@@ -1544,6 +1586,8 @@ def replay(rec):
         strip(k.anchor(obj), prep["strip"], k.nv)
     if "assign" in prep:
         setp(obj, p.attr, val_from_spec(prep["assign"]))
+    if prep.get("regate") and k.name in REGATES:
+        REGATES[k.name](prs)
     if prep.get("siblings"):
         for q in k.props:
             if q is p or (p.group is not None and q.group == p.group):
